@@ -766,6 +766,51 @@ def rule_roles(ctx, rep: Report, rid="I6"):
                         return True
         return False
 
+    # the payload kinds that carry a user-chosen name in slot 2: every isinstance test of the payload in this function
+    kind_of_flag: Dict[str, str] = {}
+    for v_, sts in local_assignments(gc).items():
+        for st in sts:
+            if isinstance(st, ast.Assign) and isinstance(st.value, ast.Call) and unparse(st.value.func) == "isinstance" \
+                    and st.value.args and is_payload(st.value.args[0]):
+                if not isinstance(st.value.args[1], ast.Tuple):
+                    kind_of_flag[v_] = unparse(st.value.args[1])
+    all_kinds = set()
+    for x in ast.walk(gc):
+        if isinstance(x, ast.Call) and unparse(x.func) == "isinstance" and x.args and is_payload(x.args[0]):
+            all_kinds |= {unparse(k) for k in x.args[1].elts} if isinstance(x.args[1], ast.Tuple) else {unparse(x.args[1])}
+    all_kinds = sorted(all_kinds)
+
+    def holds_for_kind(e, kind: str) -> Optional[bool]:
+        """Truth of a guard when the payload is of exactly `kind` (None: not a pure test of the payload's kind)."""
+        if isinstance(e, ast.BoolOp):
+            vals = [holds_for_kind(v, kind) for v in e.values]
+            if any(v is None for v in vals):
+                return None
+            return any(vals) if isinstance(e.op, ast.Or) else all(vals)
+        if isinstance(e, ast.UnaryOp) and isinstance(e.op, ast.Not):
+            v = holds_for_kind(e.operand, kind)
+            return None if v is None else not v
+        if isinstance(e, ast.Name) and e.id in kind_of_flag:
+            return kind_of_flag[e.id] == kind
+        if isinstance(e, ast.Call) and unparse(e.func) == "isinstance" and e.args and is_payload(e.args[0]):
+            ks = [unparse(x) for x in e.args[1].elts] if isinstance(e.args[1], ast.Tuple) else [unparse(e.args[1])]
+            return kind in ks
+        return None
+    if user_named and all_kinds:
+        # wherever the role is withheld (`role = None`) under a test of the payload's kind, the test holds for each kind alone
+        for st in walk_no_nested(gc):
+            if isinstance(st, ast.Assign) and isinstance(st.value, ast.Constant) and st.value.value is None and isinstance(st.targets[0], ast.Name):
+                gs = guards_of(st, gc, include_exits=False)
+                if not gs:
+                    continue
+                test = ast.parse(gs[-1][0], mode="eval").body
+                missing = [k for k in all_kinds if holds_for_kind(test, k) is False]
+                if any(holds_for_kind(test, k) is None for k in all_kinds):
+                    continue
+                rep.add(rid, "role-tag:withheld for every kind of payload that carries a user-chosen name", not missing,
+                        f"`{gs[-1][0]}` is false for a payload of kind {missing}: for those, slot 2 (the user's method / property name) is still compared "
+                        f"with the role tags, so a C++ static method named `constructor` is generated through the constructor branch",
+                        f"{ci.mod.rel}:{st.lineno}")
     if user_named:
         for tag, cmp_, subj in lit_tests:
             if tag in ("string_serialize", "string_deserialize", "global_function"):
